@@ -249,7 +249,10 @@ class Evaluator:
         """functions/methods of the plain Rust sources (syntax trees): calls to them are evaluated by inlining.
         A name defined twice for the same receiver type is ambiguous and left opaque."""
         tbl, dup = {}, set()
+        self.consts = {h["name"]: h for h in helpers if h.get("kind") == "const"}
         for h in helpers:
+            if h.get("kind") == "const":
+                continue
             key = (h.get("self_ty"), h["name"])
             if key in tbl:
                 dup.add(key)
@@ -1000,6 +1003,10 @@ class Evaluator:
             if outs is not None:
                 return outs
         p.effects.append(Effect("mcall", line, recv=self.describe(recv_node), m=m, args=args, arg_descs=descs))
+        if m in ("contains", "contains_key", "starts_with", "ends_with", "is_empty", "is_some", "is_none", "is_ok", "is_err", "eq", "ne", "any", "all"):
+            # a predicate: unknown truth, but the test it makes is kept for the rules that look at path conditions
+            p.ret = Bool(None, desc=f"{self.describe(recv_node)}.{m}({','.join(descs)})")
+            return [p]
         p.ret = Top("mcall:" + m)
         return [p]
 
